@@ -97,10 +97,12 @@ def floors(tier):
         'rt:roundtrips': 100 if q else 2000,
         'rt:old-version-loads': 500 if q else 10000,
         'rt:calibration-v4-shape': 1,
+        'rt:cross-family-old-version-loads': 60 if q else 1200,
         'e2e:configure': 40 if q else 400,
         'e2e:program-lookup-in-buildfile': 40 if q else 400,
         'e2e:regenerate-plain': 80 if q else 800,
         'e2e:regenerate-lazy-cli': 70 if q else 700,
+        'e2e:regenerate-old-format': 20 if q else 200,
         'e2e:regenerate-lazy-backend': 50 if q else 500,
         'e2e:backend-triggered-regeneration': 50 if q else 500,
         'e2e:regenerate-E2': 100 if q else 1000,
@@ -431,6 +433,20 @@ DEFAULT_DIRS = {'prefix': ['/usr/local', 'absolute'],
                 'mandir': ['man', 'datadir']}
 
 
+# documented defaults per target family (reference/ "installation arguments")
+FAMILY_DIRS = {
+    'posix': DEFAULT_DIRS,
+    'windows': {'prefix': None, 'exec_prefix': ['', 'prefix'],
+                'bindir': ['', 'exec_prefix'], 'libdir': ['', 'exec_prefix'],
+                'includedir': ['', 'prefix'], 'datadir': ['', 'prefix'],
+                'mandir': ['man', 'datadir']},
+}
+
+
+def family_of(platdesc_):
+    return 'windows' if platdesc_[1] == 'winnt' else 'posix'
+
+
 def gen_config(rng):
     initial = {rng.choice(RT_VARNAMES): rng.choice(RT_VALUES)
                for _ in range(rng.randint(0, 8))}
@@ -448,9 +464,12 @@ def gen_config(rng):
         'toolchain': rng.choice([None, None, '/tc/gcc.bfg', src + '/tool chain.bfg',
                                  '/tc/ü.bfg']),
         'tc_install_dirs': {}, 'cmd_install_dirs': {},
-        'target': rng.choice([None, None, None, ['linux', None], ['linux', 'armv7l'],
-                              ['winnt', 'x86_64'], ['macos', 'arm64'],
-                              ['android', 'aarch64']]),
+        # incl. other families than the host's: the upgrade steps must take
+        # their defaults from the SAVED target platform
+        'target': rng.choice([None, None, ['linux', None], ['linux', 'armv7l'],
+                              ['winnt', 'x86_64'], ['winnt', None],
+                              ['winnt', 'i686'], ['cygwin', None],
+                              ['macos', 'arm64'], ['android', 'aarch64']]),
         'library_mode': rng.choice([[True, False], [False, True], [True, True]]),
         'compdb': rng.random() < 0.5,
         'extra_args': rng.choice([[], [], ['--name=zed'], ['--x-name', 'a b'],
@@ -509,6 +528,13 @@ def describe(env):
         'initial': dict(v.initial),
         'changes_applied': envmon.apply_changes(v.initial, changes),
     }
+
+
+def install_flavours(env):
+    """Path class of every install directory (a windows-target default joins
+    with a backslash, a posix one with a slash: the build files show it)."""
+    return {k.name: type(p).__name__ for k, p in env.install_dirs.items()
+            if p is not None}
 
 
 def build_env(cfg):
@@ -651,15 +677,20 @@ def v4_calibration(v4data):
     return a == b
 
 
-def expected_after_upgrade(orig, modulo):
-    """Projection the older snapshot must load to."""
+def expected_after_upgrade(orig, modulo, overridden=()):
+    """Projection the older snapshot must load to.  An install directory the
+    older format did not store comes back as the default of the SAVED target
+    platform: if the configuration never overrode it, that is exactly what the
+    original held (load(older X) == X); if it did, the family default."""
     exp = copy.deepcopy(orig)
     checks = {}
     for field, dflt in modulo.items():
         if field.startswith('install_dirs.'):
             name = field.split('.', 1)[1]
-            exp['install_dirs'].pop(name, None)
-            checks[field] = DEFAULT_DIRS[name] + [False]
+            if name in overridden:
+                exp['install_dirs'].pop(name, None)
+                fam = FAMILY_DIRS[family_of(orig['target_platform'])]
+                checks[field] = fam[name] + [False]
         elif field.endswith('.arch'):
             exp[field.split('.')[0]][3] = dflt
         elif field == 'initial':
@@ -719,11 +750,17 @@ def run_roundtrip(case, res):
                             % type(e).__name__)
                 continue
             before = describe(env)
+            flav_before = install_flavours(env)
+            overridden = set(cfg['cmd_install_dirs'])
+            if cfg['toolchain']:
+                overridden |= set(cfg['tc_install_dirs'])
             env.save(d)
             with open(os.path.join(d, '.bfg_environ')) as f:
                 saved = json.load(f)
             try:
-                after = describe(Environment.load(d))
+                loaded = Environment.load(d)
+                after = describe(loaded)
+                flav_after = install_flavours(loaded)
             except Exception as e:
                 res.violate(('snapshot', 'load-raised', type(e).__name__),
                             {'config': cfg, 'error': repr(e), 'version': 17,
@@ -738,6 +775,15 @@ def run_roundtrip(case, res):
                                 'rt:backend_version=%s' %
                                 ('none' if cfg['backend_version'] is None
                                  else 'some')])
+            if flav_before != flav_after:
+                names = sorted(k for k in flav_before
+                               if flav_before[k] != flav_after.get(k))
+                res.violate(('snapshot', 'install_dirs', 'path-flavour-not-preserved'),
+                            {'field': 'install_dirs', 'version': 17, 'names': names,
+                             'before': {k: flav_before[k] for k in names},
+                             'after': {k: flav_after.get(k) for k in names},
+                             'target': before['target_platform'],
+                             'config': cfg, '__case__': sub})
             seen = set()
             if after['changes_applied'] != after['current']:
                 seen.add(('snapshot', 'variables', 'changes-stale-after-load'))
@@ -792,7 +838,10 @@ def run_roundtrip(case, res):
                     json.dump({'version': ver, 'data': data}, f)
                 res.ev('rt:old-version-loads')
                 res.ev('rt:v%d' % ver)
-                exp, checks = expected_after_upgrade(before, modulo)
+                exp, checks = expected_after_upgrade(before, modulo, overridden)
+                if family_of(before['target_platform']) != \
+                   family_of(before['host_platform']):
+                    res.ev('rt:cross-family-old-version-loads')
                 try:
                     got = describe(Environment.load(d))
                 except Exception as e:
@@ -805,10 +854,8 @@ def run_roundtrip(case, res):
                 for field, want in checks.items():
                     name = field.split('.', 1)[1]
                     have = got_cmp['install_dirs'].pop(name, 'ABSENT')
-                    if got['target_platform'][1] in ('linux', 'darwin', 'cygwin',
-                                                     'freebsd') and \
-                       (have == 'ABSENT' or have is None or
-                            [_strip_slash(have[0]), have[1], have[2]] != want):
+                    if have == 'ABSENT' or have is None or \
+                       [_strip_slash(have[0]), have[1], have[2]] != want:
                         bad.append(field)
                 if 'backend_version' in modulo:
                     got_cmp.pop('backend_version')
@@ -858,6 +905,21 @@ PROJECT = {
     'main.c': 'int foo(void);\nint main(void) { return foo(); }\n',
     'foo.c': 'int foo(void) { return 0; }\n',
     'include/foo.h': 'int foo(void);\n',
+}
+# for a foreign target platform: nothing to compile (the stub compiler cannot
+# answer -dumpmachine), but install rules so that every install directory
+# variable (datadir, mandir, ...) is written into the build file
+PROJECT_CROSS = {
+    'build.bfg': (
+        "project('p', '1.0')\n"
+        "install(man_page('p.1', level=1))\n"
+        "tool = system_executable('mytool')\n"
+        "command('usetool', cmd=[tool, 'arg'])\n"
+        "command('showvar', cmd=['vrec', env.getvar('MYVAR', '<unset>'),\n"
+        "        env.getvar('lower.var-é', '<unset>'), argv.name, str(argv.fast),\n"
+        "        argv.tag])\n"),
+    'options.bfg': PROJECT['options.bfg'],
+    'p.1': '.TH p 1\n',
 }
 E_VARNAMES = ['MYVAR', 'lower.var-é', 'JUNK_1', 'ÜNI', 'X.Y-Z', '_u', 'EMPTY',
               'CPPFLAGS', 'LDFLAGS', 'LDLIBS', 'CFLAGS']
@@ -1036,7 +1098,7 @@ def render_tc(ops):
         elif n == 'lib_options_list':
             L.append('lib_options(%s)' % r(op[1]))
         elif n == 'target_platform':
-            L.append('target_platform(%s)' % r(op[1]))
+            L.append('target_platform(%s)' % ', '.join(r(a) for a in op[1:]))
         elif n == 'which_plain':
             L.append('environ[%s] = which(%s, strict=False)' % (r(op[1]), r(op[2])))
         elif n == 'which_strict':
@@ -1186,7 +1248,17 @@ def gen_e2e(rng, idx):
         if rng.random() < 0.5:
             e2['set'][k] = '<S>/poison/' + k.lower()
     tc_ops = gen_tc_ops(rng, sensitive) if has_tc else None
-    realcc = rng.random() < 0.15
+    cross = rng.choice(['winnt', 'winnt', 'winnt', 'cygwin', 'macos']) \
+        if rng.random() < 0.2 else None
+    old_version = rng.choice([16, 16, 15, 14, 13])
+    if cross:
+        # a tool chain file choosing a target platform of another family; the
+        # same architecture as the host's, so that no format version loses it
+        tc_ops = [['target_platform', cross, _platform.machine()]] + \
+            [o for o in (tc_ops or []) if o[0] not in ('compiler',
+                                                       'target_platform')]
+        conf['dirs'].setdefault('prefix', '<S>/inst/c prefix')
+    realcc = (not cross) and rng.random() < 0.15
     if realcc:
         # the real gcc, with a compiler-default include directory chosen through
         # C_INCLUDE_PATH at configure time and named again by the project: the
@@ -1197,6 +1269,7 @@ def gen_e2e(rng, idx):
             tc_ops = [o for o in tc_ops if o[0] != 'compiler']
     return {
         'kind': 'e2e', 'idx': idx, 'backend': backend, 'realcc': realcc,
+        'cross': cross, 'old_version': old_version,
         # a space in srcdir breaks the Make back end's own regeneration rule
         # (C04's business), so it is the rarer choice
         'srcname': rng.choice(['src', 'pröj', 'src', 'pröj', 's r c']),
@@ -1339,7 +1412,7 @@ def _run_e2e(case, res, S):
         return
     src = os.path.join(S, case['srcname'])
     bd = os.path.normpath(os.path.join(S, case['buildname']))
-    files = dict(PROJECT)
+    files = dict(PROJECT_CROSS if case.get('cross') else PROJECT)
     proj.write_tree(src, files)
     for d in ('p1', 'p2', 'decoy', 'home2', 'inst', 'sdk/include', 'poison'):
         os.makedirs(os.path.join(S, d), exist_ok=True)
@@ -1493,11 +1566,25 @@ def _run_e2e(case, res, S):
                              'touch': case.get('touch', 'build.bfg')})
     stages += (lazy_backend + lazy_cli if case.get('backend_first')
                else lazy_cli + lazy_backend)
+    if case.get('old_version'):
+        # the snapshot rewritten the way an older release stored it, then a plain
+        # regenerate under E2: same build files, same (re-saved) configuration
+        stages.append({'name': 'E2', 'mode': 'old-format',
+                       'argv': [bfg, 'regenerate', bdarg2],
+                       'version': case['old_version']})
     prev_files, prev_snap, prev_name, prev_raw = F0, S0, 'configure', raw0
     environ_file = os.path.join(bd, '.bfg_environ')
     for st in stages:
         name, mode = st['name'], st['mode']
         env_, cwd_ = envs[name][0], envs[name][1]
+        if mode == 'old-format':
+            ver = rewrite_older(environ_file, st['version'], conf, tc_ops)
+            if ver is None:
+                res.exclude('configuration not expressible exactly in an older '
+                            'snapshot format')
+                continue
+            res.ev('e2e:old-format-v%d' % ver)
+            st['written_version'] = ver
         if mode == 'lazy-backend':
             # the back end decides by itself: make an input newer than every
             # output, then ask it for the build file only (nothing is compiled)
@@ -1548,6 +1635,7 @@ def _run_e2e(case, res, S):
                                   which_keys, e2, sensitive, mode)
             res.violate(mech, dict(wit, stage='regenerate-under-' + name,
                                    mode=mode, command=st['argv'][1:],
+                                   snapshot_version=st.get('written_version', 17),
                                    compared_with=prev_name, **problem[1],
                                    variables_after={
                                        k: v for k, v in
@@ -1557,8 +1645,11 @@ def _run_e2e(case, res, S):
                                        k: v for k, v in want_cur.items() if
                                        Sn['data']['variables']['current'].get(k)
                                        != v}))
-            collect_monitors(res, [mon1, mon2], wit, case, want_cur, want_init)
-            return
+            if mech != FLAVOUR_MECH:
+                collect_monitors(res, [mon1, mon2], wit, case, want_cur, want_init)
+                return
+            # the first reload turns target-flavoured install dirs into host
+            # ones; later stages are compared with that reloaded form
         prev_files, prev_snap, prev_raw = Fn, Sn, rawn
         prev_name = '%s-regenerate-%s' % (mode, name)
 
@@ -1599,7 +1690,8 @@ def _run_e2e(case, res, S):
                         'e2e:shared=%s,static=%s' % (conf['shared'], conf['static']),
                         'e2e:compdb=%s' % conf['compdb'],
                         'e2e:undetectable-make=%s' % ('MAKE' in case['e1']),
-                        'e2e:real-gcc=%s' % bool(case.get('realcc'))])
+                        'e2e:real-gcc=%s' % bool(case.get('realcc')),
+                        'e2e:cross-target=%s' % case.get('cross')])
     for op in tc_ops:
         res.classes.add('tc:' + op[0])
         if op[0] in DERIVED:
@@ -1609,11 +1701,48 @@ def _run_e2e(case, res, S):
                   'cwd2': cwd2, 'builddir_arg': bdarg2}
 
 
+FLAVOUR_MECH = ('snapshot', 'install_dirs', 'path-flavour-not-preserved')
+
+
+def rewrite_older(environ_file, version, conf, tc_ops):
+    """Rewrite a v17 snapshot in place into an older format, only as far down as
+    nothing is lost that the configuration holds (so that the regeneration must
+    reproduce the build files byte for byte).  -> version written | None"""
+    with open(environ_file) as f:
+        state = json.load(f)
+    if state.get('version') != 17:
+        return None
+    data = state['data']
+    overridden = set(conf['dirs'])
+    for op in tc_ops:
+        if op[0] == 'install_dirs':
+            overridden |= set(op[1])
+    if overridden & {'datadir', 'mandir'}:
+        return None                      # v16 cannot hold them
+    lowest = 16
+    if data['compdb'] is True and not data['mopack']:
+        lowest = 14
+        if all(data[i]['arch'] == _platform.machine()
+               for i in ('host_platform', 'target_platform')):
+            lowest = 13
+    version = max(version, lowest)
+    modulo = {}
+    for frm in range(17, version, -1):
+        downgrade_step(data, frm, modulo)
+    with open(environ_file, 'w') as f:
+        json.dump({'version': version, 'data': data}, f)
+    return version
+
+
 def classify_regen(problem, stage, case, Sn, S0, want_cur, alt_cur, which_keys, e2,
                    sensitive, mode='plain'):
     """Why did a regeneration not reproduce the configuration?  Computed from
     what was observed (classification only; the verdict is the byte compare)."""
     kind, detail = problem
+    if kind == 'buildfile-differs' and case.get('cross') and \
+       '\\' in detail.get('first', '') and \
+       detail['first'].replace('\\', '/') == detail.get('second'):
+        return FLAVOUR_MECH
     # the project's system_executable('mytool'): present in several PATH dirs
     if (kind == 'exit-status' and "'mytool'" in detail['output']) or \
        (kind == 'buildfile-differs' and 'mytool' in detail.get('first', '') and
